@@ -35,6 +35,7 @@ type Evaluator struct {
 	pre   *State // loop-entry state, for pre()
 	heads func(n int) (*State, func(string, *State) (SVal, bool))
 	calls func(name string, k int) *State
+	visitedOf func() Term
 	trigs *map[string][]Term // bound variable -> candidate trigger terms (innermost quantifier)
 	side  *[]Term // collector of well-formedness facts for values read under the innermost quantifier
 	noSide int    // >0: inside a negative position; do not attach side facts
@@ -690,6 +691,13 @@ func (ev *Evaluator) call(x *ECall) SVal {
 				return SVal{v: Val{t: fmt.Sprintf("(or (= (scap %s) 0) (> (sobj %s) %s))", p.v.t, p.v.t, ev.old.alloc)}, typ: boolT}
 			}
 			return SVal{v: Val{t: fmt.Sprintf("(> (obj %s) %s)", p.v.t, ev.old.alloc)}, typ: boolT}
+		case "visited":
+			// visited(k): key k of the ranged-over map was visited in an earlier iteration of the current loop
+			if ev.visitedOf == nil {
+				unsupported("spec: visited() is only available in invariants of map-range loops")
+			}
+			k := ev.eval(x.Args[0])
+			return SVal{v: Val{t: "(select " + ev.visitedOf() + " " + k.v.t + ")"}, typ: boolT}
 		case "sinceLoop", "beforeLoop":
 			// allocated after / not after the entry of the enclosing loop
 			if ev.pre == nil {
@@ -935,7 +943,7 @@ func (ev *Evaluator) specFunc(sf *SpecFunc, argExprs []Expr) SVal {
 	if sf.Body != nil {
 		// defined function: substitute (macro expansion) in the callee's package scope
 		sub := &Evaluator{fx: fx, env: map[string]SVal{}, st: ev.st, old: ev.old, pkg: fx.eng.pkgByPath[sf.Pkg], bound: map[string]SVal{},
-			pre: ev.pre, heads: ev.heads, calls: ev.calls, side: ev.side, noSide: ev.noSide, trigs: ev.trigs}
+			pre: ev.pre, heads: ev.heads, calls: ev.calls, side: ev.side, noSide: ev.noSide, trigs: ev.trigs, visitedOf: ev.visitedOf}
 		for k, v := range ev.bound {
 			sub.bound[k] = v
 		}
@@ -1250,6 +1258,20 @@ func (fr *Frame) evalSpec(e Expr, st *State, li *loopInfo) SVal {
 	ev := &Evaluator{fx: fx, env: map[string]SVal{}, st: st, old: fx.entry, lk: lk, pkg: fx.pkg, bound: map[string]SVal{}}
 	if li != nil {
 		ev.pre = li.preSt
+		if li.visitedSort != "" {
+			l := li
+			ev.visitedOf = func() Term {
+				switch fr.visitedMode {
+				case 1: // loop entry: nothing visited
+					return "((as const " + l.visitedSort + ") false)"
+				case 2: // back edge: the current key has been visited as well
+					if l.visitedNext != "" {
+						return l.visitedNext
+					}
+				}
+				return l.visited
+			}
+		}
 	}
 	ev.heads = fr.headsFunc()
 	return ev.eval(e)
